@@ -113,13 +113,13 @@ type WalkOpts struct {
 }
 
 type Walker struct {
-	E      *Engine
-	Opts   WalkOpts
-	Visits []*Visit
-	Notes  []string // recursion cuts, depth cuts
-	Errs   []string // undecided
+	E       *Engine
+	Opts    WalkOpts
+	Visits  []*Visit
+	Notes   []string // recursion cuts, depth cuts
+	Errs    []string // undecided
 	GoRoots []GoRoot
-	seq    int
+	seq     int
 }
 
 type GoRoot struct {
